@@ -29,7 +29,7 @@ def as_built():
         detail.append("**%s** (%s tier). *Rule:* %s *Bound:* %s%s" % (
             e["property_id"], e["tier"], esc(re.sub(r"\s+", " ", c.get("rule", ""))).rstrip(".") + ".",
             esc(c.get("bound", "")),
-            (" *Cap hit:* " + esc(c["capped"])) if c.get("capped") else ""))
+            (" *Cap hit:* " + esc(c.get("cap_detail") or c["capped"])) if c.get("capped") else ""))
     return "\n".join(rows) + "\n\n" + "\n\n".join(detail)
 
 
